@@ -313,6 +313,40 @@ func c14cEnumerate(start string, depth int, group bool) []c14cHistory {
 	return out
 }
 
+// c14cEnumerateMarks lists the ordered cross-scope batches: a Save-like call on scope A and an
+// applied / config-applied mark on scope B, in both orders of the two requests inside the one
+// batch, plus the mark with a no-op companion. Start "warm+Bcommit" (B has commit 3 > applied
+// 2, config-applied 0, so both marks are enabled on B; A has an uncommitted entry).
+func c14cEnumerateMarks(thorough bool) []c14cHistory {
+	const start = "warm+Bcommit"
+	m := c14cStartModels(start)
+	var out []c14cHistory
+	marks := []string{"cfgapp", "applied"}
+	var firsts []c14cStep
+	for _, a := range append([]string{""}, m[0].Enabled(c14cAlphabet)...) {
+		if a == "applied" {
+			continue
+		}
+		for _, b := range marks {
+			if _, ok := m[1].Gen(b); !ok {
+				continue
+			}
+			for _, order := range []string{"A", "B"} {
+				firsts = append(firsts, c14cStep{a, b, order})
+			}
+		}
+	}
+	for _, st := range firsts {
+		out = append(out, c14cHistory{start: start, steps: []c14cStep{st}})
+		if thorough {
+			for _, second := range []c14cStep{{"app", ""}, {"", "app"}} {
+				out = append(out, c14cHistory{start: start, steps: []c14cStep{st, second}})
+			}
+		}
+	}
+	return out
+}
+
 // ---------------------------------------------------------------- one crash execution
 
 type c14cMeta struct {
@@ -378,6 +412,7 @@ var c14cPark = [2]Scope{SlotScope(1002), SlotScope(1003)} // scopes of the two p
 //     (len(db.writeCh) == 1), then the second (== 2) - a wait for a condition, not for time;
 //  3. the worker is released: it commits the preliminary batch, dequeues request 1, finds
 //     request 2 already queued, the batch is full and is flushed at once.
+//
 // A nil call is replaced by a no-op mark on a private scope. Returns the calls' errors and a
 // harness error when the choreography did not happen.
 func c14cRunStepOrdered(db *DB, pk *c14cParker, calls [2]*c14model.Call, first int, started, acked *[2]atomic.Int64) ([2]error, error) {
@@ -729,7 +764,9 @@ func (w *c14cWorker) checkImage(dbPath, snapRoot string, group bool, h c14cHisto
 							kind = "acknowledged-config-applied-mark-lost" // nothing but the config-applied mark is missing
 						}
 					}
-					return &ev.Violation{Fingerprint: "C14:" + kind + "@" + where, System: "crash", Replay: h.replay(group),
+					// no kill/power suffix: whether an unsynced record already reached the file when the
+					// process is killed depends on pebble's flusher; the power image decides either way
+					return &ev.Violation{Fingerprint: "C14:" + kind + "@crash", System: "crash", Replay: h.replay(group),
 						Message: fmt.Sprintf("%s: scope %s recovered exactly to an EARLIER reference state [%s]: acknowledged calls were lost (expected [%s])",
 							c14cDescribe(h, im, mode, meta), c14cNames[si], pm.Summary(), models[si][meta.acked[si]].Summary())}
 				}
@@ -781,14 +818,14 @@ func c14cRunSection(r *ev.R, router *crashfs.Router, name string, hs []c14cHisto
 		nw = len(hs)
 	}
 	var (
-		mu                                 sync.Mutex
-		images, reopens, inflight, retried int64
-		ops                                = map[string]int{}
-		done                               int64
-		capped                             atomic.Bool
+		mu                                  sync.Mutex
+		images, reopens, inflight, retried  int64
+		ops                                 = map[string]int{}
+		done                                int64
+		capped                              atomic.Bool
 		ordered, saveThenMark, markThenSave int64
-		fps                                = map[string]int{} // violations of this section by fingerprint
-		stop                               atomic.Bool
+		fps                                 = map[string]int{} // violations of this section by fingerprint
+		stop                                atomic.Bool
 	)
 	deadline := r.Deadline()
 	work := make(chan c14cHistory)
@@ -896,6 +933,7 @@ func c14cRunSection(r *ev.R, router *crashfs.Router, name string, hs []c14cHisto
 
 var (
 	c14gFlushes, c14gPairs, c14gGrouped, c14gSplit atomic.Int64
+	c14gOrdered                                    atomic.Int64
 	c14gDirSeq                                     atomic.Uint64
 )
 
@@ -904,6 +942,7 @@ type c14gInst struct {
 	db      *DB
 	m       [2]*c14model.Scope
 	flushes atomic.Int64
+	pk      *c14cParker
 	broken  error // infrastructure problem
 	preErr  error // violation raised by the preamble (reported by Check on the root state)
 	sinceRe int
@@ -920,7 +959,9 @@ func (in *c14gInst) open() error {
 	if err != nil {
 		return err
 	}
-	db.writeCommitTestHook = func() error { in.flushes.Add(1); return nil }
+	in.pk = newC14cParker()
+	pk := in.pk
+	db.writeCommitTestHook = func() error { in.flushes.Add(1); pk.hook(); return nil }
 	in.db = db
 	return nil
 }
@@ -965,11 +1006,16 @@ func (in *c14gInst) Events() []string {
 	}
 	var out []string
 	for _, a := range append([]string{"-"}, in.m[0].Enabled(c14cAlphabet)...) {
-		for _, b := range append([]string{"-"}, in.m[1].Enabled(c14cAlphabet)...) {
+		for _, b := range append([]string{"-"}, in.m[1].Enabled(append(append([]string{}, c14cAlphabet...), "cfgapp"))...) {
 			if (a == "-" && b == "-") || (c14cIsSnapshotEvent(a) && c14cIsSnapshotEvent(b)) {
 				continue
 			}
 			if in.steps >= c14gFullDepth && a != "-" && b != "-" {
+				continue
+			}
+			if a != "-" && (b == "cfgapp" || b == "applied") {
+				// both orders of the two requests inside the one batch
+				out = append(out, a+">>"+b, a+"<<"+b)
 				continue
 			}
 			out = append(out, a+"||"+b)
@@ -997,12 +1043,27 @@ func (in *c14gInst) pair(st c14cStep) (string, error) {
 	}
 	before := in.flushes.Load()
 	var d1, d2 [2]atomic.Int64
-	errs := c14cRunStep(in.db, true, cs, &d1, &d2)
+	var errs [2]error
+	want := int64(1)
+	if st[2] != "" {
+		first := 0
+		if st[2] == "B" {
+			first = 1
+		}
+		var herr error
+		if errs, herr = c14cRunStepOrdered(in.db, in.pk, cs, first, &d1, &d2); herr != nil {
+			return "", herr
+		}
+		want = 2 // the preliminary batch + the ordered pair
+		c14gOrdered.Add(1)
+	} else {
+		errs = c14cRunStep(in.db, true, cs, &d1, &d2)
+	}
 	in.db.gcWG.Wait()
 	n := in.flushes.Load() - before
 	c14gPairs.Add(1)
 	c14gFlushes.Add(n)
-	if n == 1 {
+	if n == want {
 		c14gGrouped.Add(1)
 	} else {
 		c14gSplit.Add(1)
@@ -1017,7 +1078,13 @@ func (in *c14gInst) pair(st c14cStep) (string, error) {
 	}
 	in.sinceRe++
 	in.steps++
-	return strings.Join(desc, " || "), nil
+	sep := " || "
+	if st[2] == "A" {
+		sep = " >> "
+	} else if st[2] == "B" {
+		sep = " << "
+	}
+	return strings.Join(desc, sep), nil
 }
 
 func (in *c14gInst) Apply(event string, env *mc.Env) (string, error) {
@@ -1035,8 +1102,15 @@ func (in *c14gInst) Apply(event string, env *mc.Env) (string, error) {
 		in.sinceRe = 0
 		return "reopened", nil
 	}
-	parts := strings.SplitN(event, "||", 2)
+	sepTok, order := "||", ""
+	if strings.Contains(event, ">>") {
+		sepTok, order = ">>", "A"
+	} else if strings.Contains(event, "<<") {
+		sepTok, order = "<<", "B"
+	}
+	parts := strings.SplitN(event, sepTok, 2)
 	var st c14cStep
+	st[2] = order
 	for i, p := range parts {
 		if p != "-" {
 			st[i] = p
@@ -1147,26 +1221,33 @@ func c14cCrashPart(r *ev.R) {
 			hs = append(hs, h)
 		}
 	}
+	// the config-applied mark alone (MarkConfigApplied is acknowledged like every other call and
+	// multiraft records the index as durable once it returns): single mark, mark followed by a write
+	for _, st := range [][]c14cStep{{{"cfgapp", ""}}, {{"", "cfgapp"}}, {{"cfgapp", ""}, {"app", ""}}, {{"cfgapp", ""}, {"", "app"}}, {{"", "cfgapp"}, {"commit", ""}}} {
+		hs = append(hs, c14cHistory{start: "warm", steps: st})
+	}
 	c14cRunSection(r, router, "crash-seq", hs, false,
-		map[string]any{"depth_warm": dSeq, "depth_empty_and_warm_reopened": ev.Pick(r, 1, 2), "alphabet": c14cAlphabet, "scopes": []string{"slot/1", "controller/1"}, "preamble": c14cPreamble, "modes": []string{"kill", "power"}},
+		map[string]any{"extra": "config-applied mark alone / followed by one call (5 histories, warm start)", "depth_warm": dSeq, "depth_empty_and_warm_reopened": ev.Pick(r, 1, 2), "alphabet": c14cAlphabet, "scopes": []string{"slot/1", "controller/1"}, "preamble": c14cPreamble, "modes": []string{"kill", "power"}},
 		"every history of exactly d calls (the longest ones - 2 calls quick, 3 thorough - start on scope A); every Pebble FS mutation + snapshot-directory seam is a crash point; every image (kill and power) reopened and compared with the model after j calls, acked<=j<=started, then the lost call re-issued")
 
-	if r.ViolationCount() == 0 {
+	{
 		c14gFullDepth = ev.Pick(r, 1, 2)
 		res := mc.Run(r, mc.System{Name: "group-open", New: c14gNew, MaxDepth: 2, Workers: 8,
-			Bounds: map[string]any{"alphabet": c14cAlphabet, "pairs": "(a,b), a in enabled(A)+none, b in enabled(B)+none, not both none, not both snapshot saves", "pair_steps": c14gFullDepth, "then": "single calls (paired with a no-op on a private scope) and reopen", "start": c14cPreamble, "WriteBatchMaxItems": 2},
+			Bounds: map[string]any{"alphabet": c14cAlphabet, "alphabet_B_adds": "cfgapp", "ordered": "a pair whose B call is an applied / config-applied mark is submitted in BOTH orders of the two requests inside the batch (A>>B, B>>A) instead of unordered", "pairs": "(a,b), a in enabled(A)+none, b in enabled(B)+none, not both none, not both snapshot saves", "pair_steps": c14gFullDepth, "then": "single calls (paired with a no-op on a private scope) and reopen", "start": c14cPreamble, "WriteBatchMaxItems": 2},
 			Note:   "two goroutines submit one call each on different scopes; the write worker commits them as one batch; final state compared"})
 		_ = res
 		r.Count("group_pairs_submitted", c14gPairs.Load())
 		r.Count("group_pairs_committed_as_one_batch", c14gGrouped.Load())
 		r.Count("group_pairs_not_one_batch", c14gSplit.Load())
+		r.Count("group_ordered_pairs", c14gOrdered.Load())
 		if r.Replay() == nil && r.ViolationCount() == 0 {
+			r.Guard("group_open_ordered_pairs", c14gOrdered.Load() > 0, "%d pairs with a chosen request order inside one batch", c14gOrdered.Load())
 			// a pair is split only if one goroutine is delayed for the whole 60 s window (host overload); the oracle does not depend on it
 			r.Guard("group_pairs_were_one_physical_commit", c14gGrouped.Load() > 0 && c14gSplit.Load()*10 <= c14gPairs.Load(), "%d of %d concurrent pairs were committed by one batch (%d were not)", c14gGrouped.Load(), c14gPairs.Load(), c14gSplit.Load())
 		}
 	}
 
-	if r.ViolationCount() == 0 {
+	{
 		hg := c14cEnumerate("warm", 1, true)
 		if r.Thorough() {
 			hg = append(hg, c14cEnumerate("empty", 1, true)...)
@@ -1182,8 +1263,9 @@ func c14cCrashPart(r *ev.R) {
 			}
 			hg = keep
 		}
+		hg = append(hg, c14cEnumerateMarks(r.Thorough())...)
 		c14cRunSection(r, router, "crash-group", hg, true,
-			map[string]any{"depth": 1, "alphabet": c14cAlphabet, "starts": ev.Pick(r, []string{"warm (preamble written as group pairs)"}, []string{"warm", "empty", "warm-reopened"}), "steps": ev.Pick(r, "pairs", "pairs and single calls (paired with a no-op on a private scope)"), "WriteBatchMaxItems": 2, "modes": []string{"kill", "power"}},
-			"concurrent pairs on crashfs; per-scope bound acked_s<=j_s<=started_s")
+			map[string]any{"ordered_pairs": "start warm+Bcommit: {every enabled Save-like call on A} x {cfgapp, applied on B} x {A's request first in the batch, B's first}; {no-op} x {cfgapp, applied} in both orders; thorough: each followed by one more call", "depth": 1, "alphabet": c14cAlphabet, "starts": ev.Pick(r, []string{"warm (preamble written as group pairs)"}, []string{"warm", "empty", "warm-reopened"}), "steps": ev.Pick(r, "pairs", "pairs and single calls (paired with a no-op on a private scope)"), "WriteBatchMaxItems": 2, "modes": []string{"kill", "power"}},
+			"concurrent pairs on crashfs (unordered, and - for pairs with an applied / config-applied mark - with the order of the two requests inside the one batch chosen by stalling the write worker); kill and power image at every crash point and when idle after both acknowledgements; per-scope bound acked_s<=j_s<=started_s")
 	}
 }
